@@ -21,6 +21,18 @@ PENDING_REASON = "check under construction (designed in DESIGN.md section 6); no
 ALL = ["C%02d" % i for i in range(1, 20)]
 
 CHECKS = {
+"C10": dict(
+  category="fault_enumeration",
+  text="For each generated call set + configuration one fault kind (source I/O error, ploidy error in a selected / unselected sample, strict violation; at process level also malformed VCF lines, truncated BCF records, corrupted BGZF blocks and shim read errors at record boundaries) is placed at every record index of the stream in turn (exhaustive per case for streams <= 40 records, sampled positions above), optionally followed by a second fault; conservation (mass + skipped = records), strict-mode first-failure and all-or-nothing are judged on every run. Call sets and configurations are sampled.",
+  design_ref="DESIGN.md section 6 / C10",
+  note="'Would be skipped' is taken from the tool's own non-strict run. For malformed/corrupt records only the all-or-nothing clause is applied. L1 uses a simulated genotype source (stub) under the real site reader and Runner; L2 the real binary.",
+  technique="deterministic simulation with fault injection: exhaustive placement of record-stream faults over a simulated genotype source and crafted files; conservation and all-or-nothing oracles"),
+"C11": dict(
+  category="exploration",
+  text="Seeded record histories (2..12 records drawn by kind so that every ordered predecessor/successor pair occurs, with and without projection) with source faults inside the history (error at record i, ploidy error mid-record, Done in the middle, then reading continues); each step of the history is compared bit-exactly with the same record read by a fresh reader (refinement against a history-free reference that is the same code), and spectra of concatenations / permutations are compared at library and process level.",
+  design_ref="DESIGN.md section 6 / C11",
+  note="The simulated source delivers genotype results directly (classification of GT strings is not judged). Spectrum-level comparisons under projection allow 1e-9 absolute.",
+  technique="deterministic simulation: seeded operation histories with injected source faults, checked by refinement against a history-free reference (fresh reader per record)"),
 "C16": dict(
   category="fault_enumeration",
   text="Crash-consistency enumeration: for each generated valid spectrum file (numpy-style npy of every dtype/byte order/version/spelling, npy and text written by sfs) every truncation offset, every extension of 1..16 bytes in four content kinds and every single-token / shape edit of text is produced and handed to the real readers, which must reject all of them; the real view/fold/stat binaries are run on one damage per class and on prefixes the tool itself leaves when killed mid-write by the shim. Exhaustive per file within the size bound (<= 64 elements quick, <= 480 thorough); files are sampled.",
